@@ -1,30 +1,10 @@
 package main
 
 import (
-	"time"
-
-	abci "github.com/cometbft/cometbft/abci/types"
-	cmttypes "github.com/cometbft/cometbft/types"
 	sdk "github.com/cosmos/cosmos-sdk/types"
 )
 
 func sdkAccFromBech32(s string) ([]byte, error) { return sdk.AccAddressFromBech32(s) }
-
-func (w *World) injectJunk(n *Node, kind string)                              {}
-func (w *World) checkHonestProposalShape(n *Node, txs [][]byte, faulted bool) {}
-func (w *World) mutateProposal(n *Node, h int64, t time.Time, pv *cmttypes.Validator, txs [][]byte, mut string) ([][]byte, bool) {
-	return nil, false
-}
-func (w *World) judgeVerdicts(pn *Node, h int64, t time.Time, pv *cmttypes.Validator, txs [][]byte, verdicts map[int]bool, honest, faulted bool, spec RoundSpec) {
-}
-func (w *World) forceFinalize(pn *Node, h int64, round int, t time.Time, pv *cmttypes.Validator, txs [][]byte, hash []byte, ci abci.CommitInfo, misb []abci.Misbehavior, mut string) {
-}
-func (w *World) checkNothingPersisted(n *Node, b *DecidedBlock)                                  {}
-func (w *World) checkFinalizeUnderFault(n *Node, b *DecidedBlock, r *abci.ResponseFinalizeBlock) {}
-func (w *World) reexecute(n *Node, b *DecidedBlock)                                              {}
-
-var byzMutations = []string{"drop-first"}
-var junkKinds = []string{"stale"}
 
 func (w *World) applyProbeStep(st Step) (string, bool) {
 	if st.K == "probe.drained" {
